@@ -558,3 +558,45 @@ def run(ctx) -> None:
     _check_height_call(ctx, repo.method("abtem.potentials.iam", "_FieldBuilder", "__init__"), vst, {"box", "cell"})
     _check_onelabel(ctx, repo)
     _check_halfopen(ctx, repo)
+
+
+# ---- added after the seeded change C09-seed4: accumulation rule for the delta superposition
+_inner_run_c09 = run
+
+
+def run(ctx) -> None:  # noqa: F811
+    import ast as _ast
+
+    from ..model import call_name as _cn, norm_text as _nt, walk_no_nested as _walk
+
+    ctx.rule("R-ACCUMULATE", "superpose_deltas adds every atom's weights into the output with an *accumulating* scatter "
+             "(ufunc.at, scatter_add or bincount): an augmented fancy-index assignment `array[i, j] += v` with index "
+             "arrays writes each repeated pixel once, so two atoms of one species falling on the same pixels in one "
+             "slice lose weight and the potential of a union is not the sum of the potentials")
+    f = ctx.repo.function("abtem.integrals", "superpose_deltas")
+    target = f.positional_params[1] if len(f.positional_params) > 1 else "array"
+    sinks = 0
+    for st in _walk(f.node):
+        if isinstance(st, _ast.AugAssign) and isinstance(st.target, _ast.Subscript) and \
+                isinstance(st.target.value, _ast.Name) and st.target.value.id == target:
+            idx = st.target.slice
+            elts = idx.elts if isinstance(idx, _ast.Tuple) else [idx]
+            fancy = [e for e in elts if not isinstance(e, (_ast.Slice, _ast.Constant))]
+            if fancy:
+                sinks += 1
+                ctx.violation("R-ACCUMULATE", f"{f.qualname}:{_nt(st.target)}", f.loc(st),
+                              f"`{_nt(st)[:70]}` is a buffered fancy-index update: repeated indices are written once, "
+                              "not summed", key_detail="fancy-aug")
+        if isinstance(st, _ast.Expr) and isinstance(st.value, _ast.Call):
+            c = st.value
+            name = _cn(c) or ""
+            if (name.endswith(".add.at") or name.endswith("scatter_add")) and c.args and \
+                    isinstance(c.args[0], _ast.Name) and c.args[0].id == target:
+                sinks += 1
+                ctx.ok("R-ACCUMULATE", f"{f.qualname}:{name}", f.loc(c), "accumulating scatter")
+        if isinstance(st, _ast.AugAssign) and isinstance(st.target, _ast.Name) and st.target.id == target and any(
+                isinstance(c, _ast.Call) and (_cn(c) or "").endswith("bincount") for c in _ast.walk(st.value)):
+            sinks += 1
+            ctx.ok("R-ACCUMULATE", f"{f.qualname}:bincount", f.loc(st), "accumulating bincount")
+    ctx.require(sinks >= 1, "superpose_deltas: no write into the output array recognised")
+    _inner_run_c09(ctx)
